@@ -8,7 +8,7 @@ from harness import lib_queue as lq
 
 PID = 'C04'
 TITLE = 'Iterator queues deliver every element exactly once and always terminate'
-LEAN_MODULES = ['MlModel.Properties.C04']
+LEAN_MODULES = ['MlModel.Properties.C04', 'MlModel.Properties.C04Live', 'MlModel.Witness.C04']
 TRUSTED = [
     'scheduler shim (harness/sched/shim.py) implements CPython Lock/RLock/Condition(FIFO notify, no spurious wake-up)/'
     'queue.Queue/SimpleQueue semantics; one atomic step = one synchronisation operation, the thread-local code after it '
